@@ -45,7 +45,7 @@ func c14cases(env *core.Env) []c14case {
 				cs = append(cs, c14case{shape, "c02", i})
 			}
 		}
-		for i := 0; i < env.Pick(200, 4000); i++ {
+		for i := 0; i < env.Pick(200, 20000); i++ {
 			cs = append(cs, c14case{shape, "random", i})
 		}
 	}
